@@ -222,8 +222,11 @@ type c14Case struct {
 	Twice  []qres            `json:"twice,omitempty"`
 	// reopen
 	Steps []reopenStep `json:"steps,omitempty"`
-	Seeds []uint32     `json:"seeds,omitempty"`
-	Panic string       `json:"panic,omitempty"`
+	// Preset: the database file exists already and holds this hash seed before the relay opens it for the
+	// first time (0 is a seed like any other); it is then the first element of Seeds
+	Preset *uint32  `json:"preset,omitempty"`
+	Seeds  []uint32 `json:"seeds,omitempty"`
+	Panic  string   `json:"panic,omitempty"`
 }
 
 func openDB(ctx context.Context, drv, dsn string) (*sql.DB, uint32, error) {
@@ -364,11 +367,27 @@ func c14RunReopen(c *c14Case) {
 	}
 	defer os.RemoveAll(dir)
 	path := filepath.Join(dir, "relay.db")
+	if c.Preset != nil {
+		raw, err := sql.Open("sqlite3", path)
+		if err != nil {
+			panic(fmt.Sprintf("open file db: %v", err))
+		}
+		if err := sqlite.Migrate(ctx, raw); err != nil {
+			panic(fmt.Sprintf("migrate: %v", err))
+		}
+		if _, err := raw.ExecContext(ctx, "insert into xxhash_seed (seed) values (?)", *c.Preset); err != nil {
+			panic(fmt.Sprintf("preset seed: %v", err))
+		}
+		raw.Close()
+	}
 	db, seed, err := openDB(ctx, "sqlite3", path)
 	if err != nil {
 		panic(fmt.Sprintf("open file db: %v", err))
 	}
 	c.Seeds = []uint32{seed}
+	if c.Preset != nil {
+		c.Seeds = []uint32{*c.Preset, seed}
+	}
 	ref, rseed, err := openDB(ctx, "sqlite3", ":memory:")
 	if err != nil {
 		panic(fmt.Sprintf("open: %v", err))
@@ -521,6 +540,10 @@ func c14Gen(r *common.Rand, idx int) c14Case {
 		}
 	} else {
 		c.K = "reopen"
+		if r.Chance(20) {
+			// a database that holds its seed already: 0 in half of these cases
+			c.Preset = common.Ptr(common.Pick(r, []uint32{0, 0, 0, 1, 1<<32 - 1, uint32(r.Intn(1 << 30))}))
+		}
 		n := 1 + r.Intn(6)
 		for i := 0; i < n; i++ {
 			c.Steps = append(c.Steps, reopenStep{Re: i > 0 && r.Chance(60), B: draw(r.Intn(5))})
